@@ -47,6 +47,14 @@ func VerifC07Changes() {
 
 	write := func(w WriteTxn, m *dbModel, tag string) {
 		k := vnd.Bytes(tag, L)
+		if vnd.Param("CAS", 1) == 1 && vnd.Bool(tag+".cas") {
+			// a compare-and-swap that is always rejected (guard never matches):
+			// changes nothing, whether the key exists, is deleted or never existed
+			_, _, err := t.CompareAndSwap(w, 1<<40, &vobj{id: k})
+			vnd.Assert(err != nil, "C07.harness.cas-rejected")
+			vnd.Cover("C07.rejected-cas")
+			return
+		}
 		if vnd.Bool(tag + ".insert") {
 			t.Insert(w, &vobj{id: k})
 			m.rev++
